@@ -1,3 +1,4 @@
+import BlockCiphers.Proofs.GenTables
 import BlockCiphers.Proofs.MagmaSpec
 import BlockCiphers.Proofs.BeltSpec
 /-
@@ -7,6 +8,66 @@ and is proved by applying it.  ONLY property theorems and non-vacuity examples l
 Magma / Gost89 for ALL S-box sets (the set is a parameter, not required to be bijective) and BelT block: full.
 Kuznyechik: added when Proofs/Kuznyechik* are merged.
 -/
+
+namespace BC.GenTables
+open BC.Gen
+theorem C07.magma_Tc26_eq : magma_Tc26_SBOX.toList = sboxNats BC.Magma.Tc26 :=
+  _root_.BC.GenTables.magma_Tc26_eq
+end BC.GenTables
+
+namespace BC.GenTables
+open BC.Gen
+theorem C07.magma_TestSbox_eq : magma_TestSbox_SBOX.toList = sboxNats BC.Magma.TestSbox :=
+  _root_.BC.GenTables.magma_TestSbox_eq
+end BC.GenTables
+
+namespace BC.GenTables
+open BC.Gen
+theorem C07.magma_CryptoProA_eq : magma_CryptoProA_SBOX.toList = sboxNats BC.Magma.CryptoProA :=
+  _root_.BC.GenTables.magma_CryptoProA_eq
+end BC.GenTables
+
+namespace BC.GenTables
+open BC.Gen
+theorem C07.magma_CryptoProB_eq : magma_CryptoProB_SBOX.toList = sboxNats BC.Magma.CryptoProB :=
+  _root_.BC.GenTables.magma_CryptoProB_eq
+end BC.GenTables
+
+namespace BC.GenTables
+open BC.Gen
+theorem C07.magma_CryptoProC_eq : magma_CryptoProC_SBOX.toList = sboxNats BC.Magma.CryptoProC :=
+  _root_.BC.GenTables.magma_CryptoProC_eq
+end BC.GenTables
+
+namespace BC.GenTables
+open BC.Gen
+theorem C07.magma_CryptoProD_eq : magma_CryptoProD_SBOX.toList = sboxNats BC.Magma.CryptoProD :=
+  _root_.BC.GenTables.magma_CryptoProD_eq
+end BC.GenTables
+
+namespace BC.GenTables
+open BC.Gen
+theorem C07.belt_H5_eq : belt_block_H5.toList = nats32 BC.Belt.H5 :=
+  _root_.BC.GenTables.belt_H5_eq
+end BC.GenTables
+
+namespace BC.GenTables
+open BC.Gen
+theorem C07.belt_H13_eq : belt_block_H13.toList = nats32 BC.Belt.H13 :=
+  _root_.BC.GenTables.belt_H13_eq
+end BC.GenTables
+
+namespace BC.GenTables
+open BC.Gen
+theorem C07.belt_H21_eq : belt_block_H21.toList = nats32 BC.Belt.H21 :=
+  _root_.BC.GenTables.belt_H21_eq
+end BC.GenTables
+
+namespace BC.GenTables
+open BC.Gen
+theorem C07.belt_H29_eq : belt_block_H29.toList = nats32 BC.Belt.H29 :=
+  _root_.BC.GenTables.belt_H29_eq
+end BC.GenTables
 
 namespace BC.Magma
 /-- C07 (Magma / GOST 28147-89): for EVERY S-box set, key and block the crate's encryption is the
